@@ -7,10 +7,11 @@ from oracle.pdfwriter import Name, Ref
 ID = "C15"
 LEVEL = "proof"
 DESIGN_REF = "DESIGN.md §9 C15, §12.C15"
-COQ_TARGETS = ["Properties/C15", "Pins/C15"]
+COQ_TARGETS = ["Properties/C15", "Pins/C15", "Typed/Font"]
 THEOREMS = [("PdfV.Properties.C15", n) for n in
             ["C15_value_rt", "C15_fields_rt", "C15_dict_rt", "C15_generated_wf", "C15_generated_indirect",
-             "C15_generated_value_rt", "C15_hand_Rectangle", "C15_hand_Matrix"]]
+             "C15_generated_value_rt", "C15_hand_Rectangle", "C15_hand_Matrix", "C15_hand_Date", "C15_hand_Action",
+             "C15_dict_rt_read", "C15_int_real", "C15_top_rt", "C15_top_rt_maybe_ref", "C15_generated_top_wf"]]
 import os as _os
 if _os.environ.get("VP_DEV_NOTHM"):      # development only: correspondence without the proof targets
     COQ_TARGETS, THEOREMS = ["Typed/Run"], []
@@ -131,6 +132,129 @@ def check_hand(v, objs_in):
     return chk
 
 
+# ---------------------------------------------------------------------------------------------- stream dictionaries, fonts
+
+LZW_DEFAULTS = {"Predictor": 1, "Colors": 1, "BitsPerComponent": 8, "Columns": 1, "EarlyChange": 1}
+PARAM_FILTERS = ("FlateDecode", "LZWDecode")
+STREAM_KEYS = ("Length", "Filter", "DecodeParms", "F", "FFilter", "FDecodeParms")
+
+
+def eff_filters(d):
+    """what a stream dictionary says about its filters (ISO 32000-1 Table 5): [(name, non-default parameters)]"""
+    f = d.get("Filter")
+    names = [] if f is None else ([f] if isinstance(f, Name) else list(f))
+    p = d.get("DecodeParms")
+    parms = [] if p is None else ([p] if isinstance(p, dict) else list(p))
+    out = []
+    for i, n in enumerate(names):
+        pd = parms[i] if i < len(parms) and isinstance(parms[i], dict) else {}
+        out.append((str(n), sorted((k, float(v)) for k, v in pd.items() if LZW_DEFAULTS.get(k) != v)))
+    return out
+
+
+def check_stream(d, keep_all):
+    def chk(r):
+        if r[0] != "OK":
+            return "%s %s" % (r[0], r[1])
+        f = r[1]
+        if f[0] != b"ok":
+            return "well-formed stream dictionary rejected: " + f[0].decode("latin-1")
+        if len(f) < 6 or f[3] != b"ok":
+            return "round trip failed: " + b" ".join(f[:5]).decode("latin-1")
+        if f[1] != f[4]:
+            return "second write differs"
+        w1 = T.uncanon(f[1])
+        if eff_filters(w1) != eff_filters(d):
+            return "filters/parameters changed: %r -> %r" % (eff_filters(d), eff_filters(w1))
+        if keep_all:
+            for k, v in d.items():
+                if v is None or k in ("Filter", "DecodeParms", "Length"):
+                    continue
+                if k not in w1:
+                    return "entry /%s lost" % k
+        return None
+    return chk
+
+
+def stream_cases(rng, tier):
+    n = 60 if tier == "quick" else 800
+    img = [i for i, s in enumerate(S().structs) if s["name"] == "ImageDict"][0]
+    for _ in range(n):
+        G = T.Gen(S(), rng)
+        k = rng.randrange(4)
+        names = [rng.choice(["ASCIIHexDecode", "ASCII85Decode", "RunLengthDecode", "FlateDecode", "LZWDecode"]) for _ in range([0, 1, 2, 3][k])]
+        d = {"Length": 0}
+        parms = []
+        for nm in names:
+            if nm in PARAM_FILTERS and rng.random() < 0.6:
+                parms.append({kk: vv for kk, vv in (("Predictor", rng.choice([1, 2, 12])), ("Columns", rng.choice([1, 4, 9])),
+                                                    ("Colors", rng.choice([1, 3])), ("EarlyChange", rng.choice([0, 1]))) if rng.random() < 0.6})
+            else:
+                parms.append(None)
+        if len(names) == 1:
+            d["Filter"] = Name(names[0]) if rng.random() < 0.7 else [Name(names[0])]
+            if parms[0] is not None:
+                d["DecodeParms"] = parms[0] if rng.random() < 0.7 else [parms[0]]
+        elif names:
+            d["Filter"] = [Name(x) for x in names]
+            if any(p is not None for p in parms):
+                d["DecodeParms"] = parms
+        tags = ["stream", "filters:%d" % len(names)]
+        if rng.random() < 0.6:
+            yield Case("typed_roundtrip", fields_line("Stream<()>", d, []), check=check_stream(d, False), model=False, tags=tags)
+        else:
+            e = G.struct(img, extras=True)
+            if any(k2 in e for k2 in STREAM_KEYS) or G.objs:
+                continue
+            e.update(d)
+            cls = []
+            if rng.random() < 0.25:
+                e[rng.choice(["F", "FFilter"])] = rng.choice([{"EF": {}}, Name("ASCIIHexDecode")])
+                if "F" in e and not isinstance(e["F"], dict):
+                    e["F"] = {"EF": {}}
+                if "FFilter" in e and isinstance(e["FFilter"], dict):
+                    e["FFilter"] = Name("ASCIIHexDecode")
+                cls = ["class:stream-file"]
+            yield Case("typed_roundtrip", fields_line("Stream<ImageDict>", e, []), check=check_stream(e, True), model=False, tags=tags + cls)
+
+
+def check_font(d):
+    def chk(r):
+        if r[0] != "OK":
+            return "%s %s" % (r[0], r[1])
+        f = r[1]
+        if f[0] != b"ok" or len(f) < 6 or f[3] != b"ok":
+            return "round trip failed: " + b" ".join(f[:5]).decode("latin-1")
+        if f[1] != f[4]:
+            return "second write differs"
+        w1 = T.uncanon(f[1])
+        for k, v in d.items():
+            if v is None:
+                continue
+            if k not in w1:
+                return "entry /%s lost" % k
+            if not T.equiv(v, w1[k], {}):
+                return "entry /%s changed: %r -> %r" % (k, v, w1[k])
+        return None
+    return chk
+
+
+def font_cases(rng, tier):
+    for _ in range(40 if tier == "quick" else 400):
+        d = {"Type": Name("Font"), "Subtype": Name(rng.choice(["Type1", "TrueType"])), "BaseFont": Name(rng.choice(["Helvetica", "ABCDEF+Foo"]))}
+        if rng.random() < 0.6:
+            n = rng.randrange(4)
+            d.update({"FirstChar": 32, "LastChar": 32 + n - 1, "Widths": [rng.choice([250, 500.5, 722]) for _ in range(n)]})
+        tags = ["font"]
+        if rng.random() < 0.4:
+            d[rng.choice(["Zz1", "Name", "Custom"])] = rng.choice([7, Name("F1"), b"x"])
+            tags.append("class:font-other")
+        keys = list(d)
+        rng.shuffle(keys)
+        d = {k: d[k] for k in keys}
+        yield Case("typed_roundtrip", fields_line("Font", d, []), check=check_font(d), model=False, tags=tags)
+
+
 WRONG = [None, 7, -1, 2.5, True, Name("Bogus"), b"str", [], [Name("x"), 1], {}, {"a": 1}, Ref(99)]
 
 
@@ -146,8 +270,9 @@ def struct_cases(rng, sidx, n_random, tier):
         present = set(d)
         for f in fields:
             _COV.setdefault((name, f["name"]), set()).add(f["key"] in present)
+        nt = ["has:NameTree"] if any(f["key"] in present and f["ty"][-2:] == [33, T.MODELLED_HAND["NameTree<Primitive>"]] for f in fields) else []
         return Case("typed_roundtrip", fields_line(name, d, G.objs), check=check_struct(sidx, d, list(G.objs)),
-                    model=model, tags=["struct:" + name, tag]), d, G
+                    model=model, tags=["struct:" + name, tag] + nt), d, G
 
     for _ in range(n_random):
         yield one()[0]
@@ -161,6 +286,8 @@ def struct_cases(rng, sidx, n_random, tier):
     mfields = [f for f in fields if G0.modelled(f["ty"])]
     for _ in range(6 if tier == "quick" else 40):
         c, d, G = one(tag="mutant-base")
+        if "has:NameTree" in c.tags:
+            continue
         d = dict(d)
         k = rng.randrange(4)
         if k == 0 and mfields:
@@ -188,6 +315,13 @@ def generate(rng, tier):
         if not (s["read"] and s["write"]):
             continue
         yield from struct_cases(rng, i, n, tier)
+    yield from stream_cases(rng, tier)
+    yield from font_cases(rng, tier)
+    for _ in range(40 if tier == "quick" else 600):          # explicit destinations: outside the Coq model
+        G = T.Gen(S(), rng)
+        v = G.action(dests=True)
+        yield Case("typed_roundtrip", fields_line("Action", v, []), check=check_hand(v, []), model=not isinstance(v.get("D"), list),
+                   tags=["hand:Action"])
     for h, hid in T.MODELLED_HAND.items():
         for _ in range(80 if tier == "quick" else 1500):
             G = T.Gen(S(), rng)
@@ -210,15 +344,32 @@ def nontrivial(c):
 
 
 def classify(case, impl, model):
+    tags = case.tags
+    if impl and impl[0] == "PANIC" and "types.rs" in str(impl[1]) and "ObjectWrite for NameTree" in str(impl[1:]):
+        return "C15-c"          # the panic site and message of NameTree::to_primitive, wherever the tree is nested
+    if "class:font-other" in tags and impl and impl[0] == "OK":
+        return "C15-e"
+    if "class:stream-file" in tags and impl and impl[0] == "OK":
+        return "C15-g"
     return None
 
 
 def witness_case(f, c):
-    if c.mode == "typed_roundtrip" and f.get("status") == "fixed":
+    if c.mode == "typed_roundtrip":
         name = c.fields[0].decode()
         v = T.uncanon(c.fields[1])
         objs = [T.uncanon(x) for x in c.fields[2:]]
-        if name in T.MODELLED_HAND:
+        if name.startswith("Stream<"):
+            c.check, c.model = check_stream(v, name != "Stream<()>"), False
+            if f["id"] == "C15-g":
+                c.tags.add("class:stream-file")
+        elif name == "Font":
+            c.check, c.model = check_font(v), False
+            c.tags.add("class:font-other")
+        elif name == "NameTree<Primitive>":
+            c.check = check_hand(v, objs)
+            c.tags.add("hand:NameTree<Primitive>")
+        elif name in T.MODELLED_HAND:
             c.check = check_hand(v, objs)
         else:
             idx = [i for i, s in enumerate(S().structs) if s["name"] == name][0]
